@@ -99,6 +99,109 @@ harness! {
     }
 }
 
+// C12 (dummy records) — lives in this hook because the padding generator takes the PRSS-backed
+// sequential RNG, whose constructor is private to this module.
+// Decided: `Paddable::add_padding_items` for hybrid reports makes exactly ONE draw per cardinality
+// 1..=cap, appends `sample * cardinality` rows for it, returns the total, and every appended row has
+// all-zero breakdown-key and value shares and a match key known only to the two generating helpers
+// (the share seen by the excluded helper is zero).
+// MEASURED: not decidable here — > 900 s at cap <= 2 and at most one draw per cardinality, with the
+// harness-wide unwind at 8 and a per-loop bound of 65 for BA64::truncate_from (64 single-bit bitvec
+// copies per dummy match key); unwind 66 everywhere: > 900 s as well.  Kept as a disabled experiment
+// (x12_), C12_6 stays outside the claim.
+// Environment: the block cipher behind the RNG is an arbitrary function (Generator::generate
+// stubbed to kani::any()), the draw count comes from a stubbed sampler (symbolic, <= 2 per
+// cardinality), cap <= 2.
+pub(crate) mod c12_dummies {
+    use super::*;
+    use crate::ff::boolean_array::{BA3, BA8, BA64};
+    use crate::helpers::Role;
+    use crate::protocol::context::prss::InstrumentedSequentialSharedRandomness;
+    use crate::protocol::ipa_prf::oprf_padding::insecure::{Error as PadError, OPRFPaddingDp};
+    use crate::protocol::ipa_prf::oprf_padding::{AggregationPadding, OPRFPadding, Paddable, PaddingParameters};
+    use crate::report::hybrid::IndistinguishableHybridReport;
+    use crate::secret_sharing::replicated::ReplicatedSecretSharing;
+
+    static mut PAD_SAMPLES: [u32; 2] = [0; 2];
+    static mut PAD_CALLS: usize = 0;
+
+    pub(crate) fn generate_stub<I: Into<PrssIndex128>>(_g: &crypto::Generator, _index: I) -> u128 {
+        kani::any()
+    }
+    /// metrics bookkeeping (thread-local HashMap store) is outside every claim
+    pub(crate) fn store_mut_nop<F: FnOnce(&mut ipa_metrics::MetricsStore) -> T, T>(f: F) -> T {
+        std::mem::forget(f);
+        unsafe { std::mem::MaybeUninit::<T>::uninit().assume_init() } // T = () at every call site reached
+    }
+    pub(crate) fn padding_new_stub(_e: f64, _d: f64, _s: u32) -> Result<OPRFPaddingDp, PadError> {
+        Ok(unsafe { std::mem::zeroed::<OPRFPaddingDp>() })
+    }
+    pub(crate) fn padding_sample_stub<R: RngCore + CryptoRng>(_t: &OPRFPaddingDp, _rng: &mut R) -> u32 {
+        unsafe {
+            let i = PAD_CALLS;
+            PAD_CALLS += 1;
+            if i < 2 { PAD_SAMPLES[i] } else { 0 }
+        }
+    }
+
+    type Row = IndistinguishableHybridReport<BA8, BA3>;
+
+    harness! {
+        #[kani::unwind(8)] // plus a per-loop bound of 65 for BA64::truncate_from (64 single-bit copies), see props.py
+        #[kani::stub(crate::protocol::prss::crypto::Generator::generate, crate::protocol::prss::verif_kani::c12_dummies::generate_stub)]
+        #[kani::stub(ipa_metrics::MetricsCurrentThreadContext::store_mut, crate::protocol::prss::verif_kani::c12_dummies::store_mut_nop)]
+        #[kani::stub(crate::protocol::ipa_prf::oprf_padding::insecure::OPRFPaddingDp::new, crate::protocol::prss::verif_kani::c12_dummies::padding_new_stub)]
+        #[kani::stub(crate::protocol::ipa_prf::oprf_padding::insecure::OPRFPaddingDp::sample, crate::protocol::prss::verif_kani::c12_dummies::padding_sample_stub)]
+        fn x12_dummy_reports_per_cardinality() {
+            let cap: u32 = kani::any();
+            let s: [u32; 2] = kani::any();
+            kani::assume(cap <= 2 && s[0] <= 1 && s[1] <= 1);
+            unsafe {
+                PAD_SAMPLES = s;
+                PAD_CALLS = 0;
+            }
+            let left: bool = kani::any();
+            let dir = if left { Direction::Left } else { Direction::Right };
+            let gate = Gate::default();
+            // never read: every use of the cipher goes through the stubbed `generate`
+            let g: crypto::Generator = unsafe { std::mem::MaybeUninit::uninit().assume_init() };
+            let mut rng = InstrumentedSequentialSharedRandomness::new(SequentialSharedRandomness::new(g), &gate, Role::H1);
+            let params = PaddingParameters {
+                aggregation_padding: AggregationPadding::NoAggPadding,
+                oprf_padding: OPRFPadding::Parameters { oprf_epsilon: 1.0, oprf_delta: 1e-6, matchkey_cardinality_cap: cap, oprf_padding_sensitivity: 2 },
+            };
+            let mut rows: Vec<Row> = Vec::new();
+            let r = <Row as Paddable>::add_padding_items::<Vec<Row>, 1>(dir, &mut rows, &params, &mut rng);
+            let expect = (if cap >= 1 { s[0] } else { 0 }) + (if cap >= 2 { 2 * s[1] } else { 0 });
+            match r {
+                Ok(total) => {
+                    assert!(total == expect, "returned total == sum over cardinalities of draw * cardinality");
+                    assert!(rows.len() == expect as usize, "exactly that many dummy rows are appended");
+                    assert!(unsafe { PAD_CALLS } == cap as usize, "one draw per cardinality 1..=cap");
+                    let i: usize = kani::any();
+                    if i < rows.len() {
+                        let row = &rows[i];
+                        let bk = unsafe { std::mem::transmute::<(BA8, BA8), [u8; 2]>((row.breakdown_key.left(), row.breakdown_key.right())) };
+                        let v = unsafe { std::mem::transmute::<(BA3, BA3), [u8; 2]>((row.value.left(), row.value.right())) };
+                        assert!(bk[0] == 0 && bk[1] == 0 && v[0] == 0 && v[1] == 0, "dummies contribute nothing to any bucket");
+                        let hidden = if left { row.match_key.left() } else { row.match_key.right() };
+                        let hb = unsafe { std::mem::transmute::<BA64, [u8; 8]>(hidden) };
+                        assert!(u64::from_le_bytes(hb) == 0, "the excluded helper's side of the match key share is zero");
+                    }
+                    kani::cover!(cap == 2 && s[0] == 1 && s[1] == 1);
+                    kani::cover!(cap == 1 && s[0] == 1);
+                }
+                Err(e) => {
+                    std::mem::forget(e);
+                    assert!(false, "padding generation does not fail for admissible parameters");
+                }
+            }
+            std::mem::forget(rows);
+            std::mem::forget(rng);
+        }
+    }
+}
+
 // native replay slot (cargo kani playback): the driver points IPA_VERIF_REPLAY_DIR at a directory
 // holding one file per hook; the generated test calls the harness by its path relative to this module.
 #[cfg(test)]
